@@ -150,7 +150,7 @@ func VerifC09Equivalent() {
 	if err != nil {
 		return
 	}
-	if vChoose("reloaded", 2) == 1 {
+	if vParamOpt("baseSyms") == 0 && vChoose("reloaded", 2) == 1 {
 		s = c16Reload(s)
 	}
 	probe := gProbe("probe")
@@ -178,7 +178,7 @@ func VerifC13Reset() {
 	probe := gProbe("probe")
 
 	// round 1 ends in: an authorization (any outcome), a query, or a run-limit error
-	r1 := vChoose("round1", 4)
+	r1 := vChoose("round1", 5)
 	opts := gPatient
 	if r1 == 2 {
 		// a tight fact limit that round 1 exceeds and round 2 does not
@@ -207,6 +207,9 @@ func VerifC13Reset() {
 	}
 	switch r1 {
 	case 3:
+	case 4:
+		// content was added and the caller changed its mind: nothing was evaluated before the Reset
+		vLabel("round1=abandoned before evaluation")
 	case 0:
 		vLabel("round1=authorize")
 		c1 := gClass(a.Authorize())
@@ -266,6 +269,38 @@ func VerifC13Reset() {
 	if !reused.qerr && !fresh.qerr {
 		vAssert(gSetEq(reused.facts, fresh.facts), "C13.same-query-result")
 	}
+	// a third round after a second Reset (what a first Reset hides can show on the second one): the content
+	// of round 1 again, compared with a fresh authorizer given that content
+	if vParamOpt("thirdRound") == 0 || r1 == 3 {
+		return
+	}
+	a.Reset()
+	gLoad(a, z1)
+	var again gRun
+	again.class = gClass(a.Authorize())
+	afs, aqerr := a.Query(probe)
+	again.facts, again.qerr = afs, aqerr != nil
+	third := gAuthorize3(g.tok, z1, probe, opts)
+	vAssert(again.class == third.class, "C13.third-round-same-outcome")
+	vAssert(again.qerr == third.qerr, "C13.third-round-same-query-error")
+	if !again.qerr && !third.qerr {
+		vAssert(gSetEq(again.facts, third.facts), "C13.third-round-same-query-result")
+	}
+}
+
+// gAuthorize3: gAuthorize with the authorizer options of the caller.
+func gAuthorize3(tok *Biscuit, z gAuthz, probe Rule, opts AuthorizerOption) gRun {
+	a, err := NewVerifier(tok, opts)
+	if err != nil {
+		vAssert(false, "gen.verifier")
+		vAssume(false)
+	}
+	gLoad(a, z)
+	var r gRun
+	r.class = gClass(a.Authorize())
+	fs, qerr := a.Query(probe)
+	r.facts, r.qerr = fs, qerr != nil
+	return r
 }
 
 // VerifC02Dangling: the parent token is written by hand (as any holder can for the blocks they append, and
